@@ -123,6 +123,8 @@ class Driver:
         self.tasks = []         # (dbname, acquire task)
         self.errors = []        # acquire tasks that ended with an injected connect error
         self.failed_dbs = set()
+        self.pruned = set()             # databases on which prune_inactive_connections() was started
+        self.failed_after_prune = set() # ... and on which a connect / disconnect failed afterwards
         self.ptasks = []
         self._nexc = 0
         asyncio._set_running_loop(self.env.loop)
@@ -222,20 +224,27 @@ class Driver:
         elif k == 'connfail':
             env.pending.remove(a[1])
             self._saw_failure(a[1][0])
+            if a[1][0] in self.pruned:
+                self.failed_after_prune.add(a[1][0])
             a[1][1].set_exception(ConnectError('injected'))
         elif k == 'conn3d':
             env.pending.remove(a[1])
             self._saw_failure(a[1][0])
+            if a[1][0] in self.pruned:
+                self.failed_after_prune.add(a[1][0])
             a[1][1].set_exception(NoSuchDatabase('injected'))
         elif k == 'disc':
             env.disc.remove(a[1])
             a[1][1].set_result(None)
         elif k == 'discfail':
             env.disc.remove(a[1])
+            if a[1][0][0] in self.pruned:
+                self.failed_after_prune.add(a[1][0][0])
             a[1][1].set_exception(DisconnectError('injected'))
         elif k == 'timer':
             env.loop.fire_timer(a[1])
         elif k == 'prune':
+            self.pruned.add(a[1])
             self.ptasks.append(env.loop.create_task(env.pool.prune_inactive_connections(a[1])))
         elif k == 'pruneall':
             # HA failover: every connection is closed, lent ones included;
@@ -336,6 +345,22 @@ def stuck_on_waitlist(d: Driver) -> bool:
     return True
 
 
+def stuck_after_aborted_prune(d: Driver) -> bool:
+    """Witness predicate of known finding F21: every request that is still blocked after the fair closure waits
+    on a database block on which prune_inactive_connections() was started and on which a connect or disconnect
+    FAILED afterwards, and nothing is lent out.  (prune takes the idle connections off the stack and waits for
+    pending connects before discarding them; a failure in that window - abort_waiters() raising inside the wait,
+    a discard that fails - leaves connections in the block that are neither idle nor lent, or capacity that is
+    never given back; later requests for that database queue forever.)"""
+    stuck = [(db, t) for db, t in d.tasks if not t.done()]
+    if not stuck or d.held:
+        return False
+    for db, t in stuck:
+        if db not in d.failed_after_prune:
+            return False
+    return True
+
+
 LAST_INFO = {}
 
 
@@ -348,7 +373,8 @@ def explore(cap: int, ndb: int, ha: int, ia: int, hb: int, ib: int, tick: bool, 
     with untraced():
         d = Driver(cap, ndb, fault_level)
         dt = dt_of(dti)
-        hist = {'waitlisted_during_disconnect': False, 'stuck_waitlisted_below_capacity': False}
+        hist = {'waitlisted_during_disconnect': False, 'stuck_waitlisted_below_capacity': False,
+                'stuck_after_aborted_prune': False}
         recipe_ok = _recipe(d, ha, ia, hb, ib, tick, dt, wb, wc)
     try:
         if not recipe_ok:
@@ -382,6 +408,8 @@ def explore(cap: int, ndb: int, ha: int, ia: int, hb: int, ib: int, tick: bool, 
             return False
         if not served and exclude_f8 and hist['stuck_waitlisted_below_capacity']:
             return True          # known finding F8, see explore_raw
+        if not served and exclude_f8 and hist['stuck_after_aborted_prune']:
+            return True          # known finding F21, see explore_f21
         return served
     finally:
         LAST_INFO.clear()
@@ -417,6 +445,7 @@ def _fair_closure(d, hist):
         served = all(t.done() for _, t in d.tasks)
         if not served:
             hist['stuck_waitlisted_below_capacity'] = stuck_on_waitlist(d)
+            hist['stuck_after_aborted_prune'] = stuck_after_aborted_prune(d)
         return served
 
 
@@ -428,6 +457,17 @@ def explore_f8(cap, ndb, ha, ia, hb, ib, tick, dti, c0, c1, c2, c3, c4, k, check
     """True iff the history ends in the F8 witness state."""
     explore(cap, ndb, ha, ia, hb, ib, tick, dti, c0, c1, c2, c3, c4, k, True, exclude_f8=False, fault_level=fault_level)
     return bool(LAST_INFO.get('stuck_waitlisted_below_capacity'))
+
+
+def explore_f21(cap, ndb, ha, ia, hb, ib, tick, dti, c0, c1, c2, c3, c4, k, check_liveness, fault_level=2) -> bool:
+    """True iff the history ends in the F21 witness state."""
+    explore(cap, ndb, ha, ia, hb, ib, tick, dti, c0, c1, c2, c3, c4, k, True, exclude_f8=False, fault_level=fault_level)
+    return bool(LAST_INFO.get('stuck_after_aborted_prune'))
+
+
+def explore_raw2(cap, ndb, ha, ia, hb, ib, tick, dti, c0, c1, c2, c3, c4, k, check_liveness) -> bool:
+    """Un-narrowed obligation with connect AND disconnect / 3D000 faults (known finding F21 not excluded)."""
+    return explore(cap, ndb, ha, ia, hb, ib, tick, dti, c0, c1, c2, c3, c4, k, check_liveness, exclude_f8=False, fault_level=2)
 
 
 def connect_failures(cap: int, nwait: int, kind: int, good_first: bool) -> bool:
